@@ -123,6 +123,8 @@ def replay_chunk(behs, seed):
             else:
                 if good:
                     calls.append(list(good))
+                    if len(good) > 2:
+                        calls.append(rng.sample(good, len(good)))      # the radii of one request need not be sorted
                 for q in small[:2]:
                     calls.append(good[:3] + [q])
             for req2 in calls:
